@@ -247,9 +247,14 @@ Inductive op :=
 | OConnectInd (t : nat)                 (* ... .ConnectWithIndication(ctx) *)
 | OKick                                 (* the current backend sends Disconnect in play *)
 | ODrop                                 (* the current backend closes the connection *)
-| ODuring (z : nat) (inner : list (bool * nat)).
+| ODuring (z : nat) (inner : list (bool * nat))
   (* Connect(z) to a backend that never answers; while it is in flight the inner requests are issued
      one after the other (true = ConnectWithIndication); then the outer request times out *)
+| OConnectSnap (prev : option nat) (t : nat).
+  (* Connect() on a request OBJECT that was created earlier: [prev] is the snapshot the object
+     carries (connectionRequest.previousServer = the player's server when CreateConnectionRequest
+     ran, None before the first join).  The code uses it for events and logging only; what happens
+     is decided by the player's state when the request runs. *)
 
 Record obs := mkObs {
   o_res : list res;
@@ -308,7 +313,7 @@ Definition step (strict : bool) (e : env) (o : op) (s : st) : st * list res :=
   if negb (alive s) then (s, [RSkipped])
   else
     match o with
-    | OConnect t => let '(s1, r) := connect_raw strict e t s in (s1, [r])
+    | OConnect t | OConnectSnap _ t => let '(s1, r) := connect_raw strict e t s in (s1, [r])
     | OConnectInd t => let '(s1, r) := connect_ind e t s in (s1, [r])
     | OKick | ODrop =>
       match cur s with
@@ -337,6 +342,26 @@ Fixpoint run_ops (strict : bool) (e : env) (n : nat) (ops : list op) (s : st) : 
 Definition run (strict : bool) (e : env) (n : nat) (ops : list op) : list obs :=
   let s0 := login e init_st in
   observe n [RNone] s0 :: run_ops strict e n ops s0.
+
+(* A variant that is NOT the code: handleJoinGame keyed on the request's snapshot instead of on
+   connectedServer_ (the existing connection is only taken out and disconnected when the snapshot is
+   not None).  Kept to state what "depends on the creation time" would mean (Proofs: keyed_refuted). *)
+Definition join_keyed (prev : option nat) (c : conn) (s : st) : st :=
+  match prev with
+  | Some _ => join c s
+  | None =>
+    mkSt (Some c) (if oconn_eqb (flight s) (Some c) then None else flight s)
+         (add_nat (c_srv c) (lists s)) (opened s) 0 (alive s) (attempts s)
+  end.
+
+(* a healthy switch of a pre-1.20.2 client with that variant *)
+Definition connect_keyed (prev : option nat) (t : nat) (s : st) : st * res :=
+  match check_server s t with
+  | Some r => (s, r)
+  | None =>
+    let '(s1, c) := open_conn t s in
+    (reset_if_flight c (join_keyed prev c (set_flight (Some c) s1)), RSuccess)
+  end.
 
 Definition spec_run : env -> nat -> list op -> list obs := run true.
 (* today's code: connectionRequest.connect no longer touches the slot after a refusal *)
@@ -396,7 +421,7 @@ Definition in_try (e : env) (o : option nat) : bool :=
 (* what one operation may do, judged on the observation before and after it *)
 Definition op_ok (e : env) (o : op) (before after : obs) : bool :=
   match o with
-  | OConnect t =>
+  | OConnect t | OConnectSnap _ t =>
     match o_res after with
     | [RSuccess] => onat_is (o_cur after) t
     | [RAlready] => onat_is (o_cur before) t && same_state before after
